@@ -98,6 +98,10 @@ pub struct Conn {
     pub fe: Frontend,
     pub be: Arc<Mutex<RecBackend>>,
     pub server: Option<JoinHandle<(Srv, Vec<String>)>>,
+    /// tid of the server thread (0 until it started, -1 once it left its loop)
+    pub server_tid: Arc<std::sync::atomic::AtomicI32>,
+    /// raw fd of the server's socket (valid while the server thread lives)
+    pub server_fd: i32,
 }
 
 /// Real frontend <-> real server; the server runs in its own thread and, like the daemon,
@@ -107,9 +111,13 @@ pub fn conn(script: Script, maxq: u64) -> Conn {
     let (a, b) = sys::pair();
     let be = Arc::new(Mutex::new(RecBackend::new(script)));
     let mut srv: Srv = BackendReqHandler::from_stream(b, be.clone());
+    let server_fd = srv.as_raw_fd();
+    let server_tid = Arc::new(std::sync::atomic::AtomicI32::new(0));
+    let tid2 = server_tid.clone();
     let server = std::thread::Builder::new()
         .name("hv-server".into())
         .spawn(move || {
+            tid2.store(sys::gettid(), std::sync::atomic::Ordering::SeqCst);
             let mut results = Vec::new();
             loop {
                 match srv.handle_request() {
@@ -124,16 +132,17 @@ pub fn conn(script: Script, maxq: u64) -> Conn {
             if let Ok(s) = srv.try_clone_connection() {
                 let _ = s.shutdown(std::net::Shutdown::Both);
             }
+            tid2.store(-1, std::sync::atomic::Ordering::SeqCst);
             (srv, results)
         })
         .expect("spawn");
-    Conn { fe: Frontend::from_stream(a, maxq), be, server: Some(server) }
+    Conn { fe: Frontend::from_stream(a, maxq), be, server: Some(server), server_tid, server_fd }
 }
 
 impl Conn {
     /// Drop the frontend (closing the socket) and join the server.
     pub fn finish(mut self) -> (Arc<Mutex<RecBackend>>, Vec<String>) {
-        let Conn { fe, be, server } = &mut self;
+        let Conn { fe, be, server, .. } = &mut self;
         let fd = fe.as_raw_fd();
         unsafe { libc::shutdown(fd, libc::SHUT_RDWR) };
         let res = server.take().map(|h| h.join()).and_then(|r| r.ok()).map(|(_, r)| r).unwrap_or_default();
